@@ -75,7 +75,7 @@ class Unit:
     def __init__(self, name, props, backend, parts, csig, spec, xform=None, compose=None, aux=(),
                  enforce=None, rec=False, replace='auto', no_replace=(), loops=None, defines=(),
                  cbmc_flags=(), harness=None, fire=None, replay=(), smt=None, timeout=None,
-                 bounded=None, unwind=None, extra_c='', pre_c='', notes='', max_fail_labels=None, must_contain=(), trusted=(), thorough_only=False, file_scope='', also_replace=(), also_replace_if_present=(), mode='contract'):
+                 bounded=None, unwind=None, extra_c='', pre_c='', notes='', max_fail_labels=None, must_contain=(), trusted=(), thorough_only=False, file_scope='', force_loop_contracts=False, also_replace=(), also_replace_if_present=(), mode='contract'):
         self.name, self.props, self.backend = name, list(props), backend
         self.parts = parts if isinstance(parts, list) else [parts]
         self.csig, self.spec = csig, spec if isinstance(spec, (list, tuple)) else [spec]
@@ -91,6 +91,7 @@ class Unit:
         self.bounded = bounded      # None => unbounded proof ; else text describing the bound
         self.unwind = unwind
         self.extra_c = extra_c; self.pre_c = pre_c; self.notes = notes
+        self.force_loop_contracts = force_loop_contracts
         self.aux = list(aux); self.file_scope = file_scope   # text with @n placeholders emitted at file scope before the unit (helper overloads)
         self.mode = mode     # 'contract' (dfcc enforce/replace) or 'bounded' (plain cbmc on the harness with --unwind, never counted as proof)
         self.also_replace = list(also_replace); self.also_replace_if_present = list(also_replace_if_present)
@@ -296,6 +297,10 @@ def build_unit(unit, workdir):
     if unit.compose:
         for m in re.finditer(r'\b(\w+)\s*\(', re.sub(r'@\d+', '', unit.compose)): idents_called.add(m.group(1))
     for m in re.finditer(r'\b(\w+)\s*\(', unit.extra_c + ' '.join(unit.loops.values())): idents_called.add(m.group(1))
+    if unit.file_scope:
+        for k in set(int(x[1:]) for x in re.findall(r'@\d+', unit.file_scope)):
+            btk = bodies[k]
+            idents_called |= set(btk[i] for i in range(len(btk) - 1) if btk[i + 1] == '(')
     cfile = os.path.join(workdir, 'unit.c')
     with open(cfile, 'w') as f:
         f.write('/* generated by cxx2c from %s -- do not edit */\n' % ', '.join(i['header'] for i in infos))
@@ -400,7 +405,7 @@ def verify_unit(unit, workdir, tier='quick'):
     gi = ['goto-instrument', '--dfcc', h, '--enforce-contract-rec' if unit.rec else '--enforce-contract', unit.enforce]
     for r in b['replace']:
         gi += ['--replace-call-with-contract', r]
-    if b['n_loops'] and unit.loops:
+    if (b['n_loops'] and unit.loops) or unit.force_loop_contracts:
         gi += ['--apply-loop-contracts']
     gi += ['a.gb', 'b.gb']
     if unit.mode == 'bounded':
@@ -441,13 +446,13 @@ def verify_unit(unit, workdir, tier='quick'):
     if any('ignoring forall' in m or 'ignoring exists' in m for m in msgs):
         res['undecided'] = 'solver ignored a quantifier'
         return res
-    canary_failed = False
+    canary_failed = False; canary_seen = False
     for r in results:
         loc = r.get('sourceLocation', {}) or {}
         f = loc.get('file', ''); line = int(loc.get('line', 0) or 0)
         desc = r.get('description', '')
         if desc.startswith('canary:'):
-            canary_failed = (r['status'] == 'FAILURE'); continue
+            canary_seen = True; canary_failed = (r['status'] == 'FAILURE'); continue
         label = None
         if f:
             p = f if os.path.isabs(f) else os.path.normpath(os.path.join(workdir, f))
@@ -462,9 +467,9 @@ def verify_unit(unit, workdir, tier='quick'):
             chk['trace'] = summarize_trace(r['trace'])
         res['checks'].append(chk)
     res['canary'] = 'failed-as-expected' if canary_failed else 'NOT-REACHED'
-    if not canary_failed and unit.mode != 'bounded':
+    if not canary_failed and (unit.mode != 'bounded' or canary_seen):
         res['undecided'] = 'vacuity guard: canary after the unit call is unreachable (contradictory requires?)'
-    if unit.loops:
+    if unit.loops or unit.force_loop_contracts:
         if not any('loop_invariant' in c['id'] or 'loop invariant' in c['desc'] for c in res['checks']):
             res['undecided'] = 'loop contract silently dropped (no loop-invariant checks generated)'
     # unwinding assertion failure => bound too small => undecided
